@@ -13,6 +13,7 @@ Section GvalInd.
   Hypothesis HA : forall q x l ks a, Forall P ks -> P (GAny q x l ks a).
   Hypothesis HT : forall s, P (GText s).
   Hypothesis HD : forall q v, P (GDerived q v).
+  Hypothesis HH : forall c ra sh items, P (GHolder c ra sh items).
   Fixpoint gval_ind' (v : gval) : P v :=
     match v with
     | GAny q x l ks a =>
@@ -24,6 +25,7 @@ Section GvalInd.
                end) ks)
     | GText s => HT s
     | GDerived q p => HD q p
+    | GHolder c ra sh items => HH c ra sh items
     end.
 End GvalInd.
 
@@ -36,6 +38,7 @@ Fixpoint tree_of (v : gval) : itree :=
       INode (ostr q) atts [] (ostr text) (map tree_of kids) (ostr tail)
   | GText s => INode [] [] [] (ostr s) [] []
   | GDerived q p => INode q [(xsi_type_q, datatype_of_value p)] [] (prim_text p) [] []
+  | GHolder c _ _ _ => INode (c_rq c) [] [] [] [] []
   end.
 
 
@@ -46,6 +49,7 @@ Fixpoint elem_ok (v : gval) : bool :=
   | GAny None _ _ _ _ => false
   | GText _ => false
   | GDerived _ _ => true
+  | GHolder _ _ _ _ => false
   end.
 
 Lemma str_eqb_sym a b : str_eqb a b = str_eqb b a.
@@ -125,7 +129,7 @@ Qed.
 
 Theorem spec_ok_all v : elem_ok v = true -> spec_ok v.
 Proof.
-  induction v as [q x l ks a IH | s | q p] using gval_ind'; intros Hok.
+  induction v as [q x l ks a IH | s | q p | c ra sh items] using gval_ind'; intros Hok.
   - destruct q as [q|]; [|discriminate Hok].
     cbn in Hok. apply andb_true_iff in Hok as [Ha Hks].
     intros f stk rest.
@@ -148,6 +152,7 @@ Proof.
                 = mkF q [(xsi_type_q, datatype_of_value p)] (prim_text p) [] false).
     { cbn [data_text]. destruct (prim_text p); reflexivity. }
     rewrite E. cbn [f_name]. rewrite str_eqb_refl. reflexivity.
+  - discriminate Hok.
 Qed.
 
 Theorem itree_of_wevents_gen v : elem_ok v = true -> itree_of_wevents (gen_any v) = Some (tree_of v).
@@ -229,7 +234,7 @@ Proof. apply str_eqb_refl. Qed.
 
 Theorem wr_step_ok_all v : elem_ok v = true -> wr_ok v = true -> wr_step_ok v.
 Proof.
-  induction v as [q x l ks a IH | s | q p] using gval_ind'; intros Hok Hw.
+  induction v as [q x l ks a IH | s | q p | c ra sh items] using gval_ind'; intros Hok Hw.
   - destruct q as [q|]; [|discriminate Hok].
     cbn in Hok. apply andb_true_iff in Hok as [Ha Hks].
     cbn in Hw. apply andb_true_iff in Hw as [Hwa Hwk].
@@ -255,6 +260,7 @@ Proof.
     cbn [wsteps wstep flush_start w_pending w_attrs w_in_tail w_tail w_sink encode_data option_map attr_remove].
     rewrite xsi_nil_ne_type.
     destruct (prim_text p) as [|c r] eqn:E; cbn; rewrite ?E, ?str_eqb_refl; cbn; rewrite ?E; reflexivity.
+  - discriminate Hok.
 Qed.
 
 Theorem write_tree_gen v :
